@@ -86,7 +86,7 @@ def run_one(m):
         if src.count(old) != 1:
             return dict(id=mid, prop=prop, desc=desc, status='NOT APPLICABLE (pattern count %d)' % src.count(old))
         open(p, 'w').write(src.replace(old, new))
-        b = subprocess.run(['/venv/bin/python', os.path.join(HERE, 'tools', 'baseline_check.py'), repo], stdout=subprocess.PIPE, stderr=subprocess.STDOUT)
+        b = subprocess.run(['/venv/bin/python', os.path.join(HERE, 'tools', 'baseline_check.py'), repo], stdout=subprocess.PIPE, stderr=subprocess.STDOUT, env=dict(os.environ, BASELINE_TEST_TIMEOUT='60'))
         suite = b.stdout.decode().splitlines()[0] if b.stdout else '?'
         env = dict(os.environ, VERIF_REPO=repo)
         c = subprocess.run(['/venv/bin/python', os.path.join(HERE, 'run_check.py'), prop, 'quick'], env=env, stdout=subprocess.PIPE, stderr=subprocess.STDOUT)
